@@ -53,6 +53,9 @@ BUILTINS = {
 with open(os.path.join(os.path.dirname(os.path.abspath(__file__)), "pinned_names.json")) as _f:
     PINNED = {k: frozenset(v) for k, v in json.load(_f).items()}
 
+# Functions kept opaque (never inlined) while sa/alias.py unifies a renamed helper's call sites with the reference's.
+OPAQUE: set = set()
+
 # Leading parameter names of the external functions the rules reason about (read off the installed libraries'
 # signatures and frozen here; trusted).  A call that names leading parameters by keyword is normalised to the
 # positional spelling, so `box(minx=a, miny=b, ...)` and `box(a, b, ...)` are one term.
@@ -155,12 +158,18 @@ def prune(t, live):
     if not isinstance(t[0], str):
         return tuple(prune(c, live) for c in t)
     if t[0] == "ite":
-        la, lb = AND(live, t[1]), AND(live, NOT(t[1]))
+        c = t[1]
+        if any(x[0] == "ite" for x in walk(c)):
+            # the condition is itself a conditional value (a switch read from a table row): decide it on this path first
+            c = prune(c, live)
+            if c[0] == "const" and isinstance(c[1], bool):
+                return prune(t[2] if c[1] else t[3], live)
+        la, lb = AND(live, c), AND(live, NOT(c))
         if la == FALSE:
             return prune(t[3], lb)
         if lb == FALSE:
             return prune(t[2], la)
-        return ITE(t[1], prune(t[2], la), prune(t[3], lb))
+        return ITE(c, prune(t[2], la), prune(t[3], lb))
     if t[0] in ("comp", "lambda", "const", "param", "global", "ext", "elem", "alloc"):
         return t
     return tuple(prune(c, live) if isinstance(c, tuple) else c for c in t)
@@ -1157,6 +1166,9 @@ class Evaluator:
 
     def _is_record(self, t) -> bool:
         if t[0] == "ite":
+            # a failed lookup at the end of a chain of records is still "a record or nothing"
+            if t[3][0] == "error":
+                return self._is_record(t[2])
             return self._is_record(t[2]) and self._is_record(t[3])
         if t[0] == "call" and t[1][0] == "global" and t[1][2] == "class":
             ci = self.index.class_by_qual(t[1][1])
@@ -1170,6 +1182,8 @@ class Evaluator:
         if t[0] == "ite":
             a, b = self._record_get(t[2], attr, index), self._record_get(t[3], attr, index)
             return None if a is None or b is None else ITE(t[1], a, b)
+        if t[0] == "error":
+            return t
         ci = self.index.class_by_qual(t[1][1])
         rv = self._record_values(ci, t)
         if rv is None:
@@ -1554,7 +1568,8 @@ class Evaluator:
             return None
         if not isinstance(node, ast.Dict) or not node.keys or len(m.defs.get(name, [])) != 1:
             return None
-        if not all(isinstance(k, ast.Constant) for k in node.keys):
+        keys = [self._const_key(m, k) for k in node.keys]
+        if any(k is None for k in keys):
             return None
         # never mutated: no `G[...] = `, `del G[...]`, `G.<mutator>(...)` anywhere in the package
         cache = self.index.__dict__.setdefault("_mutated_globals", None)
@@ -1576,24 +1591,67 @@ class Evaluator:
         if g[1] in cache:
             return None
         v = default
-        for k, vn in reversed(list(zip(node.keys, node.values))):
+        for kc, vn in reversed(list(zip(keys, node.values))):
             sy = self.index.resolve_expr(m, vn) if isinstance(vn, (ast.Name, ast.Attribute)) else None
             if sy is not None:
                 val = sym_term(sy)
             elif isinstance(vn, ast.Constant):
                 val = ("const", vn.value)
             elif isinstance(vn, ast.Lambda):
-                lid = f"T{abs(hash((g[1], k.value))) % 10**8}"
+                lid = f"T{abs(hash((g[1], kc[1]))) % 10**8}"
                 if lid not in self.lambdas:
                     try:
-                        self.lambdas[lid] = Evaluator(self.index, m, vn, f"{g[1]}[{k.value!r}]", None).run()
+                        self.lambdas[lid] = Evaluator(self.index, m, vn, f"{g[1]}[{kc[1]!r}]", None).run()
                     except (AnalysisError, RecursionError):
                         return None
                 val = ("lambda", lid)
             else:
-                return None
-            v = ITE(mk_cmp("eq", key, ("const", k.value)), val, v)
+                # any other row value (a record of a function and its switches, a tuple, ...): its module-level value
+                try:
+                    sub = Evaluator(self.index, m, vn, f"{g[1]}[{kc[1]!r}]", None)
+                    sub.inline_stack = self.inline_stack + (g[1],)
+                    mark = len(sub.events)
+                    val = sub.ev(vn, TRUE)
+                except (AnalysisError, RecursionError):
+                    return None
+                if any(x[0] in ("unbound", "unknown", "alloc") for x in walk(val)) or any(e.kind != "call" for e in sub.events[mark:]):
+                    return None
+            v = ITE(mk_cmp("eq", key, kc), val, v)
         return v
+
+    def _const_key(self, m, knode):
+        """the constant a table key denotes: a literal, or `Class.tag()` of a classmethod that returns the declared default
+        of one of the class's fields (`cls.model_fields["type"].default`)"""
+        if isinstance(knode, ast.Constant):
+            return ("const", knode.value)
+        if isinstance(knode, ast.Call) and not knode.args and not knode.keywords and isinstance(knode.func, ast.Attribute):
+            try:
+                sy = self.index.resolve_expr(m, knode.func.value)
+            except AnalysisError:
+                return None
+            ci = self.index.class_by_qual(sy.qual) if sy is not None and sy.kind == "class" and ":" in sy.qual else None
+            found = ci.find_method(knode.func.attr) if ci is not None else None
+            if not found or not any(ast.unparse(d) == "classmethod" for d in found[1].decorator_list):
+                return None
+            try:
+                cs = Evaluator(self.index, found[0].module, found[1], f"{found[0].qual}.{knode.func.attr}", found[0]).run()
+            except (AnalysisError, RecursionError):
+                return None
+            rets = [e for e in cs.events if e.kind == "return"]
+            if len(rets) != 1 or any(e.kind == "raise" for e in cs.events) or not cs.params:
+                return None
+            t = rets[0].term
+            c0 = ("param", cs.params[0])
+            if t[0] == "attr" and t[2] == "default" and t[1][0] == "sub" and t[1][1] == ("attr", c0, "model_fields") \
+                    and t[1][2][0] == "const" and isinstance(t[1][2][1], str):
+                fname = t[1][2][1]
+                for c in ci.mro():
+                    for st in c.node.body:
+                        if isinstance(st, ast.AnnAssign) and isinstance(st.target, ast.Name) and st.target.id == fname:
+                            if isinstance(st.value, ast.Constant):
+                                return ("const", st.value.value)
+                            return None
+        return None
 
     def _getter_global(self, f):
         """`_get = operator.attrgetter("a.b")` at module level: the term of the getter call it is bound to"""
@@ -1860,13 +1918,21 @@ class Evaluator:
             if v is not None:
                 return v
         # calling a conditional choice of functions: (f if c else g)(x) is f(x) if c else g(x)
-        if f[0] == "ite" and all(x[0] in ("global", "const", "lambda", "ext") or (x[0] == "call" and x[1] == ("ext", "functools.partial"))
+        if f[0] == "ite" and all(x[0] in ("global", "const", "lambda", "ext", "error") or (x[0] == "call" and x[1] == ("ext", "functools.partial"))
                                  for x in self._ite_leaves(f)):
+            args0, named0 = list(args), list(named)
+
             def dist(fn, lv):
+                nonlocal args, named
                 if fn[0] == "ite":
                     return ITE(fn[1], dist(fn[2], AND(lv, fn[1])), dist(fn[3], AND(lv, NOT(fn[1]))))
+                if fn[0] == "error":
+                    return fn  # the lookup that chose the function failed: nothing is called
                 if fn == NONE or fn[0] == "const":
                     return ("error", "call of a non-function")
+                # arguments that were chosen by the same condition (a record's switch deciding what is passed)
+                args = [prune(a, lv) if lv not in (TRUE, FALSE) and any(x[0] == "ite" for x in walk(a)) else a for a in args0]
+                named = [(k_, prune(v_, lv) if lv not in (TRUE, FALSE) and any(x[0] == "ite" for x in walk(v_)) else v_) for k_, v_ in named0]
                 if fn[0] == "call" and fn[1] == ("ext", "functools.partial") and fn[2]:
                     kws_ = dict(kv for kv in fn[3] if kv[0] != "**")
                     kws_.update(dict(named))
@@ -2010,7 +2076,7 @@ class Evaluator:
             selfterm = f[1]
         else:
             return None
-        if fname in PINNED.get(modname, ()):
+        if fname in PINNED.get(modname, ()) or f"{modname}:{fname}" in OPAQUE:
             return None
         decos = [ast.unparse(d) for d in node.decorator_list]
         if any(d not in ("staticmethod", "classmethod") for d in decos):
@@ -2164,7 +2230,41 @@ class Evaluator:
             self._post.append(NOT(AND(live, inst(e.live))))
         return ne
 
+    def _alias_call(self, f, call_term):
+        """g(Q...) as the call f(P...) of the reference function f that g replaces (sa/alias.py), else None"""
+        tgt = self._inline_target(f)
+        if tgt is None:
+            return None
+        from . import alias
+        al = alias.alias_of_target(self.index, tgt[2])
+        if al is None:
+            return None
+        a = al.node.args
+        ps = [p.arg for p in list(a.posonlyargs) + list(a.args) + list(a.kwonlyargs)]
+        if tgt[4] is not None:
+            ps = ps[1:]
+        bound, extra, spreads, too_many = bind_args(call_term, ps)
+        if extra or spreads or too_many:
+            return None
+        for q, dv in zip(reversed([p.arg for p in list(a.posonlyargs) + list(a.args)]), reversed(a.defaults)):
+            if q not in bound and isinstance(dv, ast.Constant):
+                bound[q] = ("const", dv.value)
+        old = al.old_args({q: self._records_to_tuples(t) for q, t in bound.items()})
+        if old is None:
+            return None
+        old = tuple(self._fold_records(fold_sub(t)) for t in old)
+        oq = al.old_qual
+        if "." in oq.split(":")[1]:
+            recv = tgt[4] if tgt[4] is not None else ("param", "self")
+            return ("call", ("attr", recv, oq.split(".")[-1]), old, ())
+        return ("call", ("global", oq, "func"), old, ())
+
     def _try_inline(self, f, call_term, live, n, yield_from=False):
+        al_ = self._alias_call(f, call_term)
+        if al_ is not None:
+            ev_ = self.emit("call", live, al_, n)
+            ev_.kw_order = []  # type: ignore[attr-defined]
+            return al_
         prep = self._prepare_inline(f, call_term) if self._inline_target(f) is not None else None
         if prep is None:
             return None
@@ -2393,7 +2493,36 @@ class Evaluator:
             self._reemit(e, live, inst_, idmap_, qual_)
         return live
 
+    def _comp_unrolled(self, n, live, kind, elt_fn):
+        """[f(x) for x in (a, b, c)] over a literal display is the display [f(a), f(b), f(c)] (list / set / dict)"""
+        if kind == "gen" or len(n.generators) != 1:
+            return None
+        g = n.generators[0]
+        if g.ifs or g.is_async or not isinstance(g.iter, (ast.Tuple, ast.List, ast.Name, ast.Attribute)):
+            return None
+        if any(isinstance(x, ast.NamedExpr) for x in ast.walk(n)):
+            return None
+        mark = len(self.events)
+        it = self.ev(g.iter, live)
+        if it[0] not in ("tuple", "list") or not (0 < len(it[1]) <= 8) or any(x[0] == "star" for x in it[1]) or len(self.events) != mark:
+            del self.events[mark:]
+            return None
+        saved_env = dict(self.env)
+        out = []
+        try:
+            for item in it[1]:
+                self.assign(g.target, item, live, n)
+                out.append(elt_fn(live))
+        finally:
+            self.env = saved_env
+        if kind == "dict":
+            return fold_sub(("dict", tuple((e[1], e[2]) for e in out)))
+        return (kind, tuple(out))
+
     def _comp(self, n, live, kind, elt_fn):
+        un = self._comp_unrolled(n, live, kind, elt_fn)
+        if un is not None:
+            return un
         saved_env = dict(self.env)
         gens = []
         inner = live
@@ -2574,7 +2703,14 @@ class Summaries:
         qual = f"{modname}:{fname}"
         if qual in self._cache:
             return self._cache[qual]
-        m, fn = self.index.need_func(modname, fname)
+        try:
+            m, fn = self.index.need_func(modname, fname)
+        except AnalysisError:
+            s = self._of_alias(qual)
+            if s is None:
+                raise
+            self._cache[qual] = s
+            return s
         cls = None
         if "." in fname:
             cls = self.index.need_class(modname, fname.split(".")[0])
@@ -2583,6 +2719,31 @@ class Summaries:
         except RecursionError:
             raise AnalysisError(f"recursion while summarising {qual}", site=qual)
         self._cache[qual] = s
+        return s
+
+    def _of_alias(self, qual: str) -> Optional[Summary]:
+        """the summary of a reference function that was renamed / re-parameterised: its replacement's, in its own terms"""
+        from . import alias
+        al = alias.find_alias(self.index, qual)
+        if al is None:
+            return None
+        try:
+            cs = Evaluator(self.index, al.module, al.node, al.new_qual, al.cls).run()
+        except RecursionError:
+            raise AnalysisError(f"recursion while summarising {al.new_qual}", site=al.new_qual)
+        mapping = {("param", q): t for q, t in al.fwd.items()}
+
+        def inst(t):
+            return fold_sub(subst(t, mapping)) if isinstance(t, tuple) else t
+
+        s = _bind_summary(cs, inst)
+        s.qual = qual
+        recv = alias.CALLS.get(qual, {}).get("recv")
+        s.params = ([recv] if recv else []) + list(al.old_params)
+        s.defaults = {p: v for p, v in ((al.fwd[q][1], cs.defaults[q]) for q in cs.defaults if q in al.fwd and al.fwd[q][0] == "param")}
+        s.annotations = {}
+        s.inlined = list(cs.inlined) + [al.new_qual]
+        s.alias_of = al.new_qual  # type: ignore[attr-defined]
         return s
 
     def of_node(self, module: Module, fn: ast.AST, qual: str, cls=None, outer_env=None) -> Summary:
@@ -2596,6 +2757,13 @@ class Summaries:
     def of_method(self, ci: ClassInfo, meth: str) -> Optional[Summary]:
         found = ci.find_method(meth)
         if not found:
+            # a reference method that was renamed: the first class of the MRO that had it
+            for c in ci.mro():
+                if f"{c.name}.{meth}" in PINNED.get(c.module.name, ()):
+                    try:
+                        return self.of_func(c.module.name, f"{c.name}.{meth}")
+                    except AnalysisError:
+                        return None
             return None
         c, fn = found
         return self.of_node(c.module, fn, f"{c.qual}.{meth}", c)
